@@ -545,7 +545,9 @@ def table():
     for nm, file, ty, lits in (('as_array', 'as_array', 'array', ('[1,"a"]', '{}')), ('as_bool', 'as_bool', 'bool', ('false', '0')), ('as_number', 'as_number', 'number', ('-2', '"2"')), ('as_object', 'as_object', 'object', ('{"a":[1]}', '[]')),
                                ('as_string', 'as_string', 'string', ('"a"', '1'))):
         add(nm, body_of('type_group/cast/' + file), ref_as(lambda a, ty=ty: tname(a) == ty), combos(ALL_TYPES + [sh_arr(2), sh_obj(2), sh_str(2)]),
-            'the argument itself when it has that type, nothing otherwise', [(f'({nm} {lits[0]})', json.loads(lits[0])), (f'({nm} {lits[1]})', 'nothing'), (f'({nm} .nope)', 'nothing')])
+            'the argument itself when it has that type, nothing otherwise', [(f'({nm} {lits[0]})', json.loads(lits[0])), (f'({nm} {lits[1]})', 'nothing'), (f'({nm} .nope)', 'nothing')] +
+            ([(f'(as_number {v})', v) for v in (9007199254740993, 18446744073709551615, -9223372036854775807, 9223372036854775807, 0, 1.5)] if nm == 'as_number' else []) +
+            ([('(as_string "\u00e9\u4e2d")', '\u00e9\u4e2d'), ('(as_string "")', '')] if nm == 'as_string' else []) + ([('(as_array [])', []), ('(as_array [[1],{"a":2}])', [[1], {'a': 2}])] if nm == 'as_array' else []))
     EL = [sh_bool, sh_null, sh_pos]
     def arr_of(*els): return lambda i: ('arr', [e(f'{i}_{j}') for j, e in enumerate(els)])
     lists = [arr_of(*c) for n in range(0, 4) for c in itertools.product(EL, repeat=n)]
@@ -582,7 +584,8 @@ def table():
         add(nm, body_of('boolean/compare/' + file), (lambda args, term=term: [(z3.BoolVal(True), ('bool', term) if args[0] is not None and args[1] is not None else None)]), combos([sh_opq, sh_nothing], [sh_opq, sh_nothing]),
             'the comparison of the first argument with the second under the value order (an uninterpreted relation of the two operands in this order; the order itself is order.arms / Kani); nothing when an argument is nothing',
             [(f'({nm} 1 2)', nm in ('<', '<=', '!=')), (f'({nm} 2 1)', nm in ('>', '>=', '!=')), (f'({nm} 2 2)', nm in ('<=', '>=', '=')), (f'({nm} "a" "b")', nm in ('<', '<=', '!=')), (f'({nm} null false)', nm in ('<', '<=', '!=')), (f'({nm} [1,2] [1,3])', nm in ('<', '<=', '!=')),
-             (f'({nm} "z" 0)', nm in ('<', '<=', '!=')), (f'({nm} 1 .nope)', 'nothing'), (f'({nm} .nope 1)', 'nothing'), (f'({nm} 1.5 1.5)', nm in ('<=', '>=', '='))])
+             (f'({nm} "z" 0)', nm in ('<', '<=', '!=')), (f'({nm} 1 .nope)', 'nothing'), (f'({nm} -0 0)', nm in ('<=', '>=', '=')), (f'({nm} 0 -0)', nm in ('<=', '>=', '=')), (f'({nm} 9007199254740991 9007199254740990)', nm in ('>', '>=', '!=')), (f'({nm} -9007199254740991 -9007199254740990)', nm in ('<', '<=', '!=')),
+             *([(f'({nm} {{"b":2,"a":1}} {{"a":1,"b":2}})', nm in ('>', '>=')), (f'({nm} {{"a":1,"b":2}} {{"b":2,"a":1}})', nm in ('<', '<='))] if nm in ('<', '<=', '>', '>=') else []), (f'({nm} .nope 1)', 'nothing'), (f'({nm} 1.5 1.5)', nm in ('<=', '>=', '='))])
     return T
 
 
